@@ -82,7 +82,10 @@ func (a *kAggregate) Next(ctx context.Context) ([]model.StepVector, error) {
 		return nil, err
 	}
 	if in == nil {
-		return nil, nil
+		// The parameter is validated for every step, also when there is
+		// nothing to aggregate: the Prometheus engine fails the query on a
+		// parameter that cannot be an int64 whatever the input is.
+		return nil, a.validateRemainingParams(ctx)
 	}
 
 	defer a.next.GetPool().PutVectors(in)
@@ -121,6 +124,27 @@ func (a *kAggregate) Next(ctx context.Context) ([]model.StepVector, error) {
 	}
 
 	return result, nil
+}
+
+func (a *kAggregate) validateRemainingParams(ctx context.Context) error {
+	for {
+		args, err := a.paramOp.Next(ctx)
+		if err != nil {
+			return err
+		}
+		if args == nil {
+			return nil
+		}
+		for i := range args {
+			if len(args[i].Samples) > 0 {
+				if k := args[i].Samples[0]; !(k <= math.MaxInt64 && k >= math.MinInt64) {
+					return errors.Newf("Scalar value %v overflows int64", k)
+				}
+			}
+			a.paramOp.GetPool().PutStepVector(args[i])
+		}
+		a.paramOp.GetPool().PutVectors(args)
+	}
 }
 
 func (a *kAggregate) Series(ctx context.Context) ([]labels.Labels, error) {
